@@ -1265,13 +1265,25 @@ def run(res, tier, seed):
     if thorough:
         choices = [list(ordered_subsets(range(i))) for i in range(4)]
         mro6 = [("mro6", p) for p in itertools.product(*choices)]
-        tasks = tasks + mro6 + sample_tasks
+        # cheap and broad parts first: if the budget ends early it ends in the largest exhaustive layers
+        big = [t for t in tasks if t[0] == "hist" and (t[2], t[1].n) in ((1, 4), (2, 3), (3, 2))]
+        tasks = [t for t in tasks if t not in big] + mro6 + sample_tasks + big
     else:
         # quick: keep a share of the budget for the sampled part
         tasks = tasks + sample_tasks
     run_parallel(res, work, tasks, margin=0.93)
     if res.expired():
         res.exhaustive = False
+    # edits that are valid by the reference model but that modelx declined (state unchanged, invariant checked):
+    # not violations of C03, only cases the bound could not evaluate - reported as a note
+    refused = {}
+    for k in list(res.monitors):
+        if k.startswith("edit-refused:") or k.startswith("build-refused:"):
+            m = res.monitors.pop(k)
+            if m["failed"]:
+                refused[k.split(":", 1)[1]] = "%d of %d" % (m["failed"], m["evaluations"])
+    if refused:
+        res.notes.append("valid edits declined by modelx (history not continued): %s" % refused)
 
 
 if __name__ == "__main__":
